@@ -374,6 +374,23 @@ func (m *Model) missIsError(okv ssa.Value, depth int) bool {
 			returned = true
 		}
 	}
+	if !returned && vi >= 0 {
+		// `if !ok { return zero, false }`: the miss edge hands the verdict false to the callers
+		fts := failureTargets(okv)
+		all := len(fts) > 0
+		for _, fb := range fts {
+			ret, isRet := fb.Instrs[len(fb.Instrs)-1].(*ssa.Return)
+			if !isRet || vi >= len(ret.Results) {
+				all = false
+				continue
+			}
+			k, isK := ret.Results[vi].(*ssa.Const)
+			if !isK || k.Value == nil || k.Value.Kind() != constant.Bool || constant.BoolVal(k.Value) {
+				all = false
+			}
+		}
+		returned = all
+	}
 	if !returned {
 		return false
 	}
